@@ -116,14 +116,19 @@ func (s *Swarm[T]) Tell(ctx context.Context, dst Addr[T], data p2p.IOVec) error 
 		if err != nil {
 			return err
 		}
-		defer stream.Close()
 		if deadline, yes := ctx.Deadline(); yes {
 			if err := stream.SetWriteDeadline(deadline); err != nil {
+				stream.CancelWrite(1)
 				return err
 			}
 		}
-		_, err = data.WriteTo(stream)
-		return err
+		if _, err = data.WriteTo(stream); err != nil {
+			// The message ends where the stream ends: a stream that is closed normally after a
+			// partial write would be delivered as a truncated message. Reset it instead.
+			stream.CancelWrite(1)
+			return err
+		}
+		return stream.Close()
 	})
 	if isSessionReplaced(err) {
 		return s.Tell(ctx, dst, data)
